@@ -205,7 +205,7 @@ func (g *Gen) loadSpec(dir string) error {
 				g.reg.addAxiom(form, trig...)
 				g.specAxioms = append(g.specAxioms, form)
 			default:
-				return fmt.Errorf("%s: unsupported prelude form %s", f, head)
+				return fmt.Errorf("%s: unsupported prelude form %q in %.80q", f, head, form)
 			}
 		}
 	}
